@@ -1337,6 +1337,8 @@ def _judge_split_term(fn, tc):
     helpers = {k: v.node for k, v in tc.members.items() if v.kind == "func"}
     X, Y, P, Q = (Poly.sym(n) for n in "XYPQ")
     params = {"P", "Q"}
+    # the quotient 2/D as one opaque factor (numerator 2, denominator D)
+    ZQ, D = Poly.sym("ZQ"), Poly.sym("D")
 
     def power(b, e):
         return Obj("Power", {"base": b, "exponent": e})
@@ -1357,6 +1359,10 @@ def _judge_split_term(fn, tc):
         ("X**2*P**2*X**-1", product(power(X, 2), power(P, 2), power(X, -1)),
          [(X, 2), (P, 2), (X, -1)]),
         ("X*Y*X**-1", product(X, Y, power(X, -1)), [(X, 1), (Y, 1), (X, -1)]),
+        # a quotient is one factor, taken as it is (to the power 1)
+        ("(2/D)", ZQ, [(ZQ, 1)]),
+        ("X*(2/D)*P", product(X, ZQ, P), [(X, 1), (ZQ, 1), (P, 1)]),
+        ("(2/D)*(2/D)", product(ZQ, ZQ), [(ZQ, 1), (ZQ, 1)]),
     ]
 
     def deps(v):
@@ -1378,9 +1384,13 @@ def _judge_split_term(fn, tc):
         cs = a[1] if isinstance(a[1], tuple) else (a[1],)
         names = [getattr(c, "what", "").split(" ")[-1].split(".")[-1] for c in cs]
         if all(nm in ("Power", "Product", "AlgebraicLeaf", "Quotient", "Sum",
-                      "Expression", "Variable", "Leaf") for nm in names):
+                      "Expression", "Variable", "Leaf", "QuotientBase")
+               for nm in names):
             if isinstance(v, Obj):
                 return v.cls in names or "Expression" in names
+            if isinstance(v, Poly) and v == ZQ:
+                return bool({"Quotient", "QuotientBase", "Expression"}
+                            & set(names))
             if isinstance(v, Poly) and not v.is_const():
                 return bool({"AlgebraicLeaf", "Expression", "Variable", "Leaf"}
                             & set(names))
@@ -1415,8 +1425,19 @@ def _judge_split_term(fn, tc):
                     return lambda *a, **k: it.call_function(
                         helpers[attr], [_mp] + list(a), {"__kwargs__": dict(k)})
                 raise AnalysisError(f"mapper attribute {attr}")
+            if isinstance(base, Poly) and base == ZQ and attr in (
+                    "numerator", "denominator", "num", "den"):
+                return 2 if attr.startswith("num") else D
             return Opaque(ast.unparse(node))
+
+        def iszero(it_, n_, a, k):
+            v = Poly.lift(a[0])
+            if v.is_const():
+                return v.const_value() == 0
+            return False
         it = Interp(calls={"pymbolic.flattened_product": pprod,
+                           "is_zero": iszero, "primitives.is_zero": iszero,
+                           "p.is_zero": iszero,
                            "flattened_product": pprod, "isinstance": _isinst},
                     attrs=attrs, globals_=glob, max_steps=50000)
         b2e = {}
